@@ -269,57 +269,15 @@ def extra(ctx, eng):
     eng.check(cases, "sched")
     ctx.cov["schedule_cases"] = {"total": len(cases), "two_thread_schedules_all": len(all_schedules(2)),
                                  "three_thread_schedules": len(all_schedules(3)), "three_thread_exhaustive": ctx.tier == "thorough"}
-    if ctx.violations:
+    if ctx.has_input():
         return
     oracle_pass(ctx, eng, cases, "sched")
     oracle_pass(ctx, eng, gen(ctx, 300 if ctx.tier == "quick" else 3000), "generated")
 
 
 def run(ctx):
-    """std.run, except that a broken known-finding replay (impl != as-is model on it) does not end the run: the
-    generated cases are still explored so that the verdict carries a shrunk failing input whenever one exists."""
-    import os
     import sys
-    from vlib.corr import Engine, finalize_cov
-    pm = sys.modules[__name__]
-    ok, problem = core.lean_stage(ctx, EXTRA_MODULES)
-    ctx.log("lean stage:", "ok" if ok else "BROKEN", f"({ctx.cov.get('discharged')}/{ctx.cov.get('obligations')} theorems)")
-    binary, log = core.build_harness()
-    if binary is None:
-        ctx.violation("harness-build.txt", "the correspondence harness does not build against the current tree, so the tie between model "
-                      "and code cannot be checked and the property is not shown\n" + log[-4000:], no_input=True)
-        finalize_cov(ctx, RULE)
-        return ctx.finish()
-    if not os.path.exists(core.DRIVER):
-        ctx.violation("lean-build.txt", "the Lean driver does not build:\n" + problem, no_input=True)
-        finalize_cov(ctx, RULE)
-        return ctx.finish()
-    eng = Engine(ctx, pm, binary)
-    eng.replay_known()
-    stashed, ctx.violations = ctx.violations, []       # `.corr` reports of the known replays (no failing input in them)
-    corp = corpus()
-    if corp:
-        eng.check(corp, "corpus")
-    n, done = SIZES[ctx.tier], 0
-    while done < n and not ctx.violations:
-        k = min(BATCH, n - done)
-        eng.check(gen(ctx, k), "generated")
-        done += k
-        ctx.log(f"{done}/{n} cases, {ctx.cov.get('evaluations', 0)} observations compared")
-    if not ctx.violations:
-        extra(ctx, eng)
-    if not any(not no_input for _, no_input in ctx.violations):
-        ctx.violations = stashed + ctx.violations       # nothing better was found: keep the correspondence reports
-    if not ok and not ctx.violations:
-        ctx.violation("proof-broken.txt", f"proof obligations of Sentinel.Props.{PROP} no longer check:\n{problem}\n"
-                      "the correspondence run found no input on which the property fails\n", no_input=True)
-    finalize_cov(ctx, RULE)
-    if ctx.tier == "thorough" and ok:
-        rc, so, se = core.sh(["lake", "env", "leanchecker", f"Sentinel.Props.{PROP}"], cwd=core.LEAN, timeout=3600)
-        ctx.cov["leanchecker"] = "ok" if rc == 0 else ("failed: " + (so + se)[-500:])
-        if rc != 0:
-            ctx.violation("leanchecker.txt", so + se, no_input=True)
-    return ctx.finish()
+    return std.run(ctx, sys.modules[__name__], extra=extra)
 
 
 META = {
